@@ -1,13 +1,18 @@
 (* C01 — Every input is handled without crash, hang or abnormal exit.
-   The theorem half: the component models never take a Crash branch (each is re-exported from the property
-   file of its component, where it is proved for all inputs).  Exit status, stderr, recursion and time are
-   explored on the real CLI by the harness (DESIGN.md C01). *)
-From Coq Require Import ZArith List.
+   The theorem half: the component models never take a foreign-exception (Crash) branch.  Each statement below is the
+   no-crash / totality theorem of a component, proved for ALL inputs in that component's development and re-exported here,
+   so that C01 stops checking as soon as any of them does.  What no model exhibits — exit status, stderr, the interpreter's
+   recursion limit (known finding D12), regex cost, time — is explored on the real CLI by tools/harness/c01.py. *)
+From Coq Require Import ZArith NArith List.
 From I18n Require Import Lib.Outcome Model.IntExpr Model.PluralForms Generated.PyConsts
   Proofs.Codomain Proofs.IntExprParse.
+From I18n Require Model.MoParser Model.FmtC Model.Header Model.Messages Model.Dates Model.Ling Model.LingData Model.Encodings
+  Proofs.EncodingsTable.
+From I18n Require Props.C09 Props.C11 Props.C15 Props.C16 Props.C18 Props.C19 Props.C20.
 Import ListNotations.
 Local Open Scope Z_scope.
 
+(* plural expressions (C04-C07) *)
 Theorem C01_plural_evaluator_total : forall M e n c, pyeval M e n <> Crash c.
 Proof. exact pyeval_nocrash. Qed.
 Print Assumptions C01_plural_evaluator_total.
@@ -19,3 +24,46 @@ Print Assumptions C01_range_analysis_total.
 Theorem C01_plural_parser_no_value_error : forall s, parse_string int_max_str_digits s <> Crash CValueError.
 Proof. exact (parse_string_no_value_error int_max_str_digits eq_refl). Qed.
 Print Assumptions C01_plural_parser_no_value_error.
+
+(* MO loader, through the except structure of Checker.check (C09) *)
+Theorem C01_mo_loader_total : forall asc dec f c, MoParser.checker_load asc dec f <> Crash c.
+Proof. exact C09.C09_total_checker. Qed.
+Print Assumptions C01_mo_loader_total.
+
+(* C format strings (C11) *)
+Theorem C01_c_format_parser_own_errors : forall s c, FmtC.fmtc_parse int_max_str_digits s <> Crash c.
+Proof. exact C11.C11_own_errors. Qed.
+Print Assumptions C01_c_format_parser_own_errors.
+
+(* header checks (C15) *)
+Theorem C01_header_checks_total : forall O known dedicated nb ob inp,
+  exists ds, Header.hdr_check O known dedicated nb ob inp = Ok ds.
+Proof. exact C15.C15_no_crash. Qed.
+Print Assumptions C01_header_checks_total.
+
+(* message checks (C16) *)
+Theorem C01_message_checks_total : forall cfg cat,
+  Messages.c_maxd cfg = 0%N -> Messages.ctl_complete (Messages.c_ctlnames cfg) ->
+  (forall e, In e cat -> Messages.scalar_text (Messages.me_msgid e) /\ Messages.scalar_text (Messages.me_msgstr e)) ->
+  exists ds, Messages.check_messages cfg cat = Ok ds.
+Proof. exact C16.C16_no_crash. Qed.
+Print Assumptions C01_message_checks_total.
+
+(* dates (C18) *)
+Theorem C01_date_checks_total : forall E now tmpl bin cts pots pos,
+  Dates.table_ok (Dates.tz_table E) = true ->
+  exists a b, Dates.check_dates E now tmpl bin cts pots pos = Ok (a, b).
+Proof. exact C18.C18_check_dates_total. Qed.
+Print Assumptions C01_date_checks_total.
+
+(* language (C19) *)
+Theorem C01_language_check_total : forall munch opt path metas pls pcs tmpl c,
+  Ling.check_language (LingData.gen_cfg munch) opt path metas pls pcs tmpl <> Crash c.
+Proof. exact C19.C19_check_language_no_crash. Qed.
+Print Assumptions C01_language_check_total.
+
+(* charset proposal (C20) *)
+Theorem C01_charset_proposal_total : forall o, EncodingsTable.ascii_cased o -> forall enc c,
+  Encodings.propose_portable_encoding Encodings.real_enc_data o enc <> Crash c.
+Proof. exact C20.C20_proposal_never_asserts. Qed.
+Print Assumptions C01_charset_proposal_total.
